@@ -50,6 +50,10 @@ theorem pin_container_tree_btree_rotateRight_ok : Juniper.Gen.PinTree.pin_contai
 theorem pin_container_tree_btree_searchNode_ok : Juniper.Gen.PinTree.pin_container_tree_btree_searchNode = Juniper.Pinned.Tree.pin_container_tree_btree_searchNode := by rfl
 theorem pin_container_tree_btree_siblings_ok : Juniper.Gen.PinTree.pin_container_tree_btree_siblings = Juniper.Pinned.Tree.pin_container_tree_btree_siblings := by rfl
 theorem pin_container_tree_btree_steal_ok : Juniper.Gen.PinTree.pin_container_tree_btree_steal = Juniper.Pinned.Tree.pin_container_tree_btree_steal := by rfl
+theorem pin_container_tree_cursor_Backward_ok : Juniper.Gen.PinTree.pin_container_tree_cursor_Backward = Juniper.Pinned.Tree.pin_container_tree_cursor_Backward := by rfl
+theorem pin_container_tree_cursor_BackwardWhile_ok : Juniper.Gen.PinTree.pin_container_tree_cursor_BackwardWhile = Juniper.Pinned.Tree.pin_container_tree_cursor_BackwardWhile := by rfl
+theorem pin_container_tree_cursor_Forward_ok : Juniper.Gen.PinTree.pin_container_tree_cursor_Forward = Juniper.Pinned.Tree.pin_container_tree_cursor_Forward := by rfl
+theorem pin_container_tree_cursor_ForwardWhile_ok : Juniper.Gen.PinTree.pin_container_tree_cursor_ForwardWhile = Juniper.Pinned.Tree.pin_container_tree_cursor_ForwardWhile := by rfl
 theorem pin_container_tree_cursor_Next_ok : Juniper.Gen.PinTree.pin_container_tree_cursor_Next = Juniper.Pinned.Tree.pin_container_tree_cursor_Next := by rfl
 theorem pin_container_tree_cursor_Prev_ok : Juniper.Gen.PinTree.pin_container_tree_cursor_Prev = Juniper.Pinned.Tree.pin_container_tree_cursor_Prev := by rfl
 theorem pin_container_tree_cursor_SeekFirst_ok : Juniper.Gen.PinTree.pin_container_tree_cursor_SeekFirst = Juniper.Pinned.Tree.pin_container_tree_cursor_SeekFirst := by rfl
@@ -69,7 +73,6 @@ theorem pin_container_tree_newBtree_ok : Juniper.Gen.PinTree.pin_container_tree_
 theorem pin_container_tree_node_full_ok : Juniper.Gen.PinTree.pin_container_tree_node_full = Juniper.Pinned.Tree.pin_container_tree_node_full := by rfl
 theorem pin_container_tree_removeOne_ok : Juniper.Gen.PinTree.pin_container_tree_removeOne = Juniper.Pinned.Tree.pin_container_tree_removeOne := by rfl
 theorem pin_container_tree_rightmostLeaf_ok : Juniper.Gen.PinTree.pin_container_tree_rightmostLeaf = Juniper.Pinned.Tree.pin_container_tree_rightmostLeaf := by rfl
-theorem pin_iterator_whileIterator_Next_ok : Juniper.Gen.PinTree.pin_iterator_whileIterator_Next = Juniper.Pinned.Tree.pin_iterator_whileIterator_Next := by rfl
 theorem pin_xsort_LessCompare_ok : Juniper.Gen.PinTree.pin_xsort_LessCompare = Juniper.Pinned.Tree.pin_xsort_LessCompare := by rfl
 theorem pin_container_tree_type_Bound_ok : Juniper.Gen.PinTree.pin_container_tree_type_Bound = Juniper.Pinned.Tree.pin_container_tree_type_Bound := by rfl
 theorem pin_container_tree_type_KVPair_ok : Juniper.Gen.PinTree.pin_container_tree_type_KVPair = Juniper.Pinned.Tree.pin_container_tree_type_KVPair := by rfl
@@ -83,25 +86,6 @@ theorem pin_container_tree_type_cursor_ok : Juniper.Gen.PinTree.pin_container_tr
 theorem pin_container_tree_type_forwardIterator_ok : Juniper.Gen.PinTree.pin_container_tree_type_forwardIterator = Juniper.Pinned.Tree.pin_container_tree_type_forwardIterator := by rfl
 theorem pin_container_tree_type_node_ok : Juniper.Gen.PinTree.pin_container_tree_type_node = Juniper.Pinned.Tree.pin_container_tree_type_node := by rfl
 theorem pin_container_tree_vars_ok : Juniper.Gen.PinTree.pin_container_tree_vars = Juniper.Pinned.Tree.pin_container_tree_vars := by rfl
-theorem pin_iterator_type_Iterator_ok : Juniper.Gen.PinTree.pin_iterator_type_Iterator = Juniper.Pinned.Tree.pin_iterator_type_Iterator := by rfl
-theorem pin_iterator_type_Peekable_ok : Juniper.Gen.PinTree.pin_iterator_type_Peekable = Juniper.Pinned.Tree.pin_iterator_type_Peekable := by rfl
-theorem pin_iterator_type_chanIterator_ok : Juniper.Gen.PinTree.pin_iterator_type_chanIterator = Juniper.Pinned.Tree.pin_iterator_type_chanIterator := by rfl
-theorem pin_iterator_type_chunkIterator_ok : Juniper.Gen.PinTree.pin_iterator_type_chunkIterator = Juniper.Pinned.Tree.pin_iterator_type_chunkIterator := by rfl
-theorem pin_iterator_type_compactIterator_ok : Juniper.Gen.PinTree.pin_iterator_type_compactIterator = Juniper.Pinned.Tree.pin_iterator_type_compactIterator := by rfl
-theorem pin_iterator_type_counterIterator_ok : Juniper.Gen.PinTree.pin_iterator_type_counterIterator = Juniper.Pinned.Tree.pin_iterator_type_counterIterator := by rfl
-theorem pin_iterator_type_emptyIterator_ok : Juniper.Gen.PinTree.pin_iterator_type_emptyIterator = Juniper.Pinned.Tree.pin_iterator_type_emptyIterator := by rfl
-theorem pin_iterator_type_filterIterator_ok : Juniper.Gen.PinTree.pin_iterator_type_filterIterator = Juniper.Pinned.Tree.pin_iterator_type_filterIterator := by rfl
-theorem pin_iterator_type_firstIterator_ok : Juniper.Gen.PinTree.pin_iterator_type_firstIterator = Juniper.Pinned.Tree.pin_iterator_type_firstIterator := by rfl
-theorem pin_iterator_type_flattenIterator_ok : Juniper.Gen.PinTree.pin_iterator_type_flattenIterator = Juniper.Pinned.Tree.pin_iterator_type_flattenIterator := by rfl
-theorem pin_iterator_type_joinIterator_ok : Juniper.Gen.PinTree.pin_iterator_type_joinIterator = Juniper.Pinned.Tree.pin_iterator_type_joinIterator := by rfl
-theorem pin_iterator_type_mapIterator_ok : Juniper.Gen.PinTree.pin_iterator_type_mapIterator = Juniper.Pinned.Tree.pin_iterator_type_mapIterator := by rfl
-theorem pin_iterator_type_peekable_ok : Juniper.Gen.PinTree.pin_iterator_type_peekable = Juniper.Pinned.Tree.pin_iterator_type_peekable := by rfl
-theorem pin_iterator_type_repeatIterator_ok : Juniper.Gen.PinTree.pin_iterator_type_repeatIterator = Juniper.Pinned.Tree.pin_iterator_type_repeatIterator := by rfl
-theorem pin_iterator_type_runsInnerIterator_ok : Juniper.Gen.PinTree.pin_iterator_type_runsInnerIterator = Juniper.Pinned.Tree.pin_iterator_type_runsInnerIterator := by rfl
-theorem pin_iterator_type_runsIterator_ok : Juniper.Gen.PinTree.pin_iterator_type_runsIterator = Juniper.Pinned.Tree.pin_iterator_type_runsIterator := by rfl
-theorem pin_iterator_type_sliceIterator_ok : Juniper.Gen.PinTree.pin_iterator_type_sliceIterator = Juniper.Pinned.Tree.pin_iterator_type_sliceIterator := by rfl
-theorem pin_iterator_type_whileIterator_ok : Juniper.Gen.PinTree.pin_iterator_type_whileIterator = Juniper.Pinned.Tree.pin_iterator_type_whileIterator := by rfl
-theorem pin_iterator_vars_ok : Juniper.Gen.PinTree.pin_iterator_vars = Juniper.Pinned.Tree.pin_iterator_vars := by rfl
 theorem pin_xsort_type_Less_ok : Juniper.Gen.PinTree.pin_xsort_type_Less = Juniper.Pinned.Tree.pin_xsort_type_Less := by rfl
 theorem pin_xsort_type_mergeIterator_ok : Juniper.Gen.PinTree.pin_xsort_type_mergeIterator = Juniper.Pinned.Tree.pin_xsort_type_mergeIterator := by rfl
 theorem pin_xsort_type_valueAndSource_ok : Juniper.Gen.PinTree.pin_xsort_type_valueAndSource = Juniper.Pinned.Tree.pin_xsort_type_valueAndSource := by rfl
